@@ -23,11 +23,21 @@ import (
 var (
 	repo    = flag.String("repo", "/repo", "netpoll working tree")
 	out     = flag.String("out", "", "output directory")
-	engine  = flag.String("engine", "/verif/engine", "engine module directory")
+	engine  = flag.String("engine", defaultEngine(), "engine module directory")
 	fine    = flag.Bool("fine", false, "statement-level plain points inside LinkBuffer methods")
 	noAlloc = flag.Bool("noalloc", false, "do not replace mcache")
 	extra   = flag.String("extra", "", "comma separated extra overlay pairs dst=src")
 )
+
+func defaultEngine() string {
+	if exe, err := os.Executable(); err == nil {
+		d := filepath.Join(filepath.Dir(filepath.Dir(exe)), "engine")
+		if _, err := os.Stat(d); err == nil {
+			return d
+		}
+	}
+	return "/verif/engine"
+}
 
 const shimBase = "verif/engine/shim/"
 
@@ -89,6 +99,9 @@ func main() {
 	if *out == "" {
 		fmt.Fprintln(os.Stderr, "need -out")
 		os.Exit(2)
+	}
+	if abs, err := filepath.Abs(*out); err == nil {
+		*out = abs
 	}
 	os.MkdirAll(*out, 0o755)
 	overlay := map[string]string{}
